@@ -66,6 +66,9 @@ G0 == [ sc      |-> "none",
         lastcut |-> <<>>,      \* client -> cutoff of its last successful vacuum
         stepdel |-> <<>>,      \* client -> version tokens it DELETEd during the current API call
         reachb  |-> <<>>,      \* version token -> nodes it reached at the last `reach` tagged "before"
+        txins   |-> <<>>,      \* client -> keys it INSERTed since BEGIN (or in the current autocommit statement)
+        everins |-> <<>>,      \* client -> keys it has ever INSERTed through its current handle (KF-MAST-3)
+        leakable|-> {},        \* keys INSERTed by a transaction that was rolled back or whose commit failed (KF-MAST-1)
         cfail   |-> {},        \* clients whose last COMMIT failed (SQLite rolled the transaction back)
         fault   |-> {}         \* clients with an active fault / crash plan
       ]
@@ -103,10 +106,22 @@ VAll(ps, suffix, e, detail) == UNION {V(p, p \o suffix, e, detail) : p \in ps}
 IdealProps == {"C02", "C03", "C04", "C05", "C08", "C09", "C10", "C11", "C13", "C14", "C15", "C16"}
 NoFault(c) == c \notin g.fault
 
+(* A deviation that consists ONLY of extra rows whose keys were INSERTed by a rolled-back / failed transaction  *)
+(* is reported under its own predicate name (known finding KF-MAST-1: the dependency's copy-on-write lets such *)
+(* an INSERT survive the rollback); every other deviation keeps the plain name.                               *)
+OnlyLeaked(rows, expected) == expected \subseteq rows /\ rows # expected /\ \A r \in rows \ expected : r[1] \in g.leakable
+(* KF-MAST-3: with a node cache the same dependency defect corrupts the cached copy of an OLD node (the INSERT's *)
+(* new child is written into it); when the tree later returns to that old content (the row was deleted and       *)
+(* vacuumed) the handle that did the INSERT reads the stale row again.  Named only when the deviation is exactly  *)
+(* extra rows whose keys this client once INSERTed.                                                              *)
+OnlyStale(c, rows, expected) == expected \subseteq rows /\ rows # expected /\ \A r \in rows \ expected : r[1] \in Get(g.everins, c, {})
+Suffix(c, rows, expected) == IF OnlyLeaked(rows, expected) THEN "_LeakedInsert"
+                             ELSE IF OnlyStale(c, rows, expected) THEN "_StaleCachedInsert" ELSE ""
 CheckRows(e, c, facts, rows, where) ==
   LET ideal == Ideal(facts) IN
   IF rows # ideal
-  THEN VAll(IdealProps, "_RowsAreIdeal", e, [where |-> where, observed |-> rows, ideal |-> ideal, facts |-> facts])
+  THEN VAll(IdealProps, "_RowsAreIdeal" \o Suffix(c, rows, ideal), e,
+            [where |-> where, observed |-> rows, ideal |-> ideal, facts |-> facts])
   ELSE {}
 
 PastDeadline(c) == Get(g.attr, c, [deadline |-> -1, write_time |-> -1]).deadline = -999
@@ -185,6 +200,7 @@ OnOpenDone(e) ==
                        !.cpend = Put(@, c, {}),
                        !.ctx = Put(@, c, FALSE),
                        !.cver = Put(@, c, vers),
+                       !.everins = Put(@, c, {}),
                        !.obs = @ \cup {<<facts, rows>>},
                        !.lastrows = Put(@, c, rows)]
       v1 == IF e.rows_outcome = "ok" THEN CheckRows(e, c, facts, rows, "open")
@@ -218,7 +234,12 @@ OnStmt(e) ==
       after == before \cup (IF acc THEN {f} ELSE {})
       pend == Get(g.cpend, c, {}) \cup (IF acc THEN {f} ELSE {})
       a0 == Get(g.attr, c, [deadline |-> -1, write_time |-> -1])
+      leak0 == IF e.outcome # "ok" /\ e.intx = 0 /\ e.kind = "ins" THEN {e.key} ELSE {}
       g0 == [g EXCEPT !.cfacts = Put(@, c, after),
+                      !.txins = IF acc /\ e.kind = "ins" /\ e.intx = 1 THEN Put(@, c, Get(@, c, {}) \cup {e.key}) ELSE @,
+                      !.everins = IF acc /\ e.kind = "ins" THEN Put(@, c, Get(@, c, {}) \cup {e.key}) ELSE @,
+                      \* a failed autocommit INSERT is rolled back by SQLite
+                      !.leakable = @ \cup leak0,
                       \* unless told to keep it, the harness sets write_time to the statement's wt first
                       !.attr = IF Has(e, "keep_wt") THEN @ ELSE Put(@, c, [a0 EXCEPT !.write_time = e.wt]),
                       !.laststmt = IF acc THEN Put(@, c, f) ELSE @,
@@ -253,17 +274,18 @@ OnRows(e) ==
      ELSE [g2 |-> g1,
            v |-> CheckRows(e, c, Get(g.cfacts, c, {}), rows, "rows")
                  \cup (IF Has(e, "same") /\ rows # Get(g.lastrows, c, {})
-                       THEN V(e.same, e.same \o "_RowsUnchanged", e, [before |-> Get(g.lastrows, c, {}), after |-> rows]) ELSE {})
+                       THEN V(e.same, e.same \o "_RowsUnchanged" \o Suffix(c, rows, Get(g.lastrows, c, {})), e, [before |-> Get(g.lastrows, c, {}), after |-> rows]) ELSE {})
                  \* same_as_begin = 1: after ROLLBACK; = 2: after a COMMIT, if that COMMIT failed
                  \cup (IF Has(e, "same_as_begin") /\ (e.same_as_begin = 1 \/ c \in g.cfail) /\ rows # Get(g.csnaprows, c, {})
-                       THEN V("C05", "C05_RollbackRestores", e, [before |-> Get(g.csnaprows, c, {}), after |-> rows]) ELSE {})]
+                       THEN V("C05", IF OnlyLeaked(rows, Get(g.csnaprows, c, {})) THEN "C05_RollbackRestores_LeakedInsert" ELSE "C05_RollbackRestores",
+                              e, [before |-> Get(g.csnaprows, c, {}), after |-> rows]) ELSE {})]
 
 OnBegin(e) ==
   LET c == e.c IN
   [g2 |-> IF e.outcome = "ok"
           THEN [g EXCEPT !.ctx = Put(@, c, TRUE), !.csnap = Put(@, c, Get(g.cfacts, c, {})),
                          !.csnaprows = Put(@, c, Get(g.lastrows, c, {})),
-                         !.txputs = Put(@, c, 0), !.txkeys = Put(@, c, {})]
+                         !.txputs = Put(@, c, 0), !.txkeys = Put(@, c, {}), !.txins = Put(@, c, {})]
           ELSE g,
    v |-> IF e.outcome # "ok" THEN Unexpected(e, "begin") ELSE {}]
 
@@ -272,7 +294,7 @@ OnCommit(e) ==
       \* a failed COMMIT is rolled back by SQLite (xRollback): the view returns to the BEGIN snapshot
       g1 == IF e.outcome = "ok" THEN Finalize([g EXCEPT !.ctx = Put(@, c, FALSE), !.cfail = @ \ {c}], c, Get(g.cpend, c, {}))
             ELSE [g EXCEPT !.ctx = Put(@, c, FALSE), !.cfacts = Put(@, c, Get(g.csnap, c, {})), !.cpend = Put(@, c, {}),
-                           !.fresh = Put(@, c, <<>>), !.cfail = @ \cup {c}]
+                           !.fresh = Put(@, c, <<>>), !.cfail = @ \cup {c}, !.leakable = @ \cup Get(g.txins, c, {})]
       g2 == IF e.outcome = "ok" /\ Has(e, "version") THEN [g1 EXCEPT !.cver = Put(@, c, Range(e.version))] ELSE g1
       v1 == IF e.outcome = "ok" /\ Get(g.txputs, c, 0) > 1
             THEN V("C05", "C05_CommitIsOneVersion", e, [versions |-> Get(g.txputs, c, 0)]) ELSE {}
@@ -284,7 +306,8 @@ OnCommit(e) ==
 OnRollback(e) ==
   LET c == e.c
       g1 == IF e.outcome = "ok"
-            THEN [g EXCEPT !.ctx = Put(@, c, FALSE), !.cfacts = Put(@, c, Get(g.csnap, c, {})), !.cpend = Put(@, c, {})]
+            THEN [g EXCEPT !.ctx = Put(@, c, FALSE), !.cfacts = Put(@, c, Get(g.csnap, c, {})), !.cpend = Put(@, c, {}),
+                           !.leakable = @ \cup Get(g.txins, c, {})]
             ELSE g
       v1 == IF Get(g.txputs, c, 0) > 0 \/ e.dm > 0
             THEN V("C05", "C05_RollbackLeavesBucket", e, [versions |-> Get(g.txputs, c, 0), mutations |-> e.dm]) ELSE {}
@@ -453,6 +476,20 @@ OnTx2(e) ==
    v |-> IF e.outcome # "ok" THEN Unexpected(e, "two-table transaction")
          ELSE IF Cardinality(Range(e.times)) # 1 THEN V("C05", "C05_OneWriteTime", e, [times |-> Range(e.times), tables |-> 2]) ELSE {}]
 
+(* one SQL statement run on the s3db table and on a native WITHOUT ROWID table of the same connection *)
+SeqToBag(sq) == [x \in Range(sq) |-> Cardinality({i \in DOMAIN sq : sq[i] = x})]
+OnSql(e) ==
+  IF ~Has(e, "sh_outcome") THEN [g2 |-> g, v |-> {}]
+  ELSE
+  LET sameOutcome == e.outcome = e.sh_outcome /\ (e.kind = "query" \/ e.outcome # "ok" \/ e.affected = e.sh_affected)
+      sameRows == e.kind # "query" \/ e.outcome # "ok" \/ e.sh_outcome # "ok"
+                  \/ (IF e.ordered = 1 THEN e.rows = e.sh_rows ELSE SeqToBag(e.rows) = SeqToBag(e.sh_rows))
+      TableProps == {"C06", "C07", "C08"}
+  IN [g2 |-> g,
+      v |-> (IF ~sameOutcome THEN VAll(TableProps, "_SameOutcome", e,
+                    [q |-> e.q, args |-> e.args, s3db |-> <<e.outcome, e.affected, e.err>>, native |-> <<e.sh_outcome, e.sh_affected>>]) ELSE {})
+            \cup (IF ~sameRows THEN VAll(TableProps, "_SameRows", e, [q |-> e.q, args |-> e.args, s3db |-> e.rows, native |-> e.sh_rows]) ELSE {})]
+
 OnPlan(e) == [g2 |-> [g EXCEPT !.fault = @ \cup {e.c}], v |-> {}]
 OnHeal(e) == [g2 |-> [g EXCEPT !.fault = @ \ {e.c}], v |-> {}]
 
@@ -480,6 +517,7 @@ Handle(e) ==
     [] e.ev = "conn_get"   -> OnConnGet(e)
     [] e.ev = "vacuum"     -> OnVacuum(e)
     [] e.ev = "tx2"        -> OnTx2(e)
+    [] e.ev = "sql"        -> OnSql(e)
     [] e.ev = "plan"       -> OnPlan(e)
     [] e.ev = "heal"       -> OnHeal(e)
     [] e.ev \in {"panic", "hang"} -> OnPanic(e)
